@@ -1,12 +1,31 @@
 (* run_case : one dispatcher from operation number + marshalled arguments to a
-   marshalled result.  Extracted to OCaml; the driver only converts text. *)
+   marshalled result.  Extracted to OCaml; the driver only converts text.
+   Family = op / 100. *)
 From Coq Require Import ZArith List Bool.
 From SP Require Import Base.Result Base.Bytes Run.Marshal.
-From SP Require Import Run.DispSph.
+From SP Require Import Run.DispSph Run.DispUbf Run.DispSeq Run.DispCds Run.DispTc Run.DispTm Run.DispSrv1 Run.DispVerif Run.DispParser Run.DispTlv Run.DispMsg Run.DispHdr Run.DispPdu Run.DispFileData Run.DispFactory Run.DispUslp Run.DispCrc Run.DispCross.
 Import ListNotations.
 Open Scope Z_scope.
 
 Definition run_case (op : Z) (a : args) : args :=
-  let fam := op / 100 in
-  if fam =? 1 then run_sph op a
-  else [[1; 97]].
+  match op / 100 with
+  | 1 => run_sph op a
+  | 2 => run_ubf op a
+  | 3 => run_seq op a
+  | 4 => run_cds op a
+  | 5 => run_tc op a
+  | 6 => run_tm op a
+  | 7 => run_srv1 op a
+  | 8 => run_verif op a
+  | 9 => run_parser op a
+  | 10 => run_tlv op a
+  | 11 => run_msg op a
+  | 12 => run_hdr op a
+  | 13 => run_pdu op a
+  | 14 => run_filedata op a
+  | 15 => run_factory op a
+  | 16 => run_uslp op a
+  | 17 => run_crc op a
+  | 18 => run_cross op a
+  | _ => [[1; 97]]
+  end.
